@@ -50,7 +50,8 @@ SumSizes(fl) ==
 
 \* ---- type menu: records [size, align]; Pad(T) is what the slow path asks the list for ----
 Pad(T) == T.size + T.align - 1
-TypeMenu == { [size |-> 0, align |-> 1], [size |-> 1, align |-> 1], [size |-> 2, align |-> 1],
+TypeMenu == { [size |-> 0, align |-> 1], [size |-> 0, align |-> 2], [size |-> 0, align |-> 8], [size |-> 0, align |-> 16],
+              [size |-> 1, align |-> 1], [size |-> 2, align |-> 1],
               [size |-> 3, align |-> 1], [size |-> 5, align |-> 1], [size |-> 9, align |-> 1],
               [size |-> 17, align |-> 1], [size |-> 64, align |-> 1], [size |-> 2, align |-> 2],
               [size |-> 6, align |-> 2], [size |-> 4, align |-> 4], [size |-> 12, align |-> 4],
